@@ -77,3 +77,8 @@ package lang
 //@   ensures empty: len(block.Instrs) == 0 ==> result == nil
 //@   ensures last: len(block.Instrs) > 0 ==> result == block.Instrs[len(block.Instrs) - 1]
 //@   modifies nothing
+
+// InstrMethodKey only reads the instruction (go/ssa objects) and builds a string.
+//@ func InstrMethodKey
+//@   property C12 C10
+//@   pure
